@@ -327,6 +327,10 @@ def c14(ctx):
     from props import listeners
     listeners.design(ctx)
     listeners.follow(ctx)
+    # what each `bind` string means (specs/BindAddr.tla: util.parse_address statement by statement; every string of a few pieces
+    # replayed into the real function and through Config.address; drift only)
+    from props import bindaddr
+    bindaddr.run(ctx)
     for unix in (True, False):
         sel = [(t, m) for t, m in results if t["unix"] == unix]
         if not sel:
